@@ -2057,6 +2057,269 @@ Proof.
 Qed.
 
 
+Lemma cnames_u3 : forall names exp l L' acc accs ex s e tr Lf Mdyn Mb c0 C0,
+  Inv3 exp l L' acc accs ex s e tr Lf Mdyn Mb -> CX exp ex (er s) (c0 :: C0) ->
+  Forall (fun x => x <> n_star) names -> incl names (cs_T c0) ->
+  let s' := fold_left (fun s x => store true s (stack_of (l :: L') ++ cids (c0 :: C0)) [x] Plain) names s in
+  Inv3 exp l L' acc accs ex s' e tr Lf Mdyn Mb /\
+  CX exp ex (er s') (mkCS (cs_id c0) (cs_T c0) (cs_acc c0 ++ names) :: C0) /\
+  lineno s' = lineno s /\ next_id s' = next_id s.
+Proof.
+  intros names exp l L' acc accs ex s e tr Lf Mdyn Mb c0 C0 H3 HX0 Hns Hin. cbv zeta.
+  pose proof H3 as [HI HL HU HEU Hfin Hdyn Hown].
+  destruct (cnames names exp l L' acc accs ex (er s) e tr c0 C0 HI HX0 Hns Hin) as (I1 & X1 & Ln1 & N1).
+  cbv zeta in I1, X1, Ln1, N1. rewrite <- er_store_names in I1, X1, Ln1, N1.
+  split; [|split; [exact X1|split; [exact Ln1|exact N1]]].
+  constructor; auto.
+  assert (Etop : top (stack_of (l :: L') ++ cids (c0 :: C0)) = cs_id c0). { rewrite cids_cons, app_assoc. apply top_snoc. }
+  assert (HtpT : cs_id c0 <> T).
+  { intro E. apply (ex_off _ _ (i_ex _ _ _ _ _ _ _ _ _ HI) (cs_id c0) (cx_in _ _ _ _ HX0 c0 (or_introl eq_refl))).
+    rewrite E, HL, stack_of_snoc. apply in_app_iff. left. apply in_app_iff. right. left. reflexivity. }
+  clear - HU Etop HtpT. revert s HU. induction names as [|x names IH]; intros s HU; cbn [fold_left]. exact HU.
+  apply IH. rewrite store_true_noreport.
+  - rewrite Etop. apply UI_set_other; auto.
+  - rewrite Etop. intros c Hc. apply dict_get_In' in Hc. apply (u_plain _ _ _ _ _ _ _ HU) in Hc; auto. discriminate.
+Qed.
+
+Lemma center_u3 : forall exp l L' acc accs ex s e tr Lf Mdyn Mb Cf T0,
+  Inv3 exp l L' acc accs ex s e tr Lf Mdyn Mb -> CX exp ex (er s) Cf ->
+  let K := next_id s in
+  let s1 := snd (new_scope s KNormal []) in
+  let cK := mkCS K T0 [] in
+  Inv3 (upd exp K T0) l L' acc accs (K :: ex) s1 e tr Lf Mdyn Mb /\ CX (upd exp K T0) (K :: ex) (er s1) (cK :: Cf) /\
+  next_id s1 = S K /\ lineno s1 = lineno s /\ ext K exp (upd exp K T0) /\ ce_ok cK (comp_frame T0).
+Proof.
+  intros exp l L' acc accs ex s e tr Lf Mdyn Mb Cf T0 H3 HX0. cbv zeta. pose proof H3 as [HI HL HU HEU Hfin Hdyn Hown].
+  destruct (center exp l L' acc accs ex (er s) e tr Cf T0 HI HX0) as (I1 & X1 & Nx1 & Ln1 & Xe & Hk).
+  cbv zeta in I1, X1, Nx1, Ln1, Xe, Hk. cbn [next_id er] in *.
+  destruct (er_new_scope s KNormal []) as [_ F2]. cbn [erd map] in F2. rewrite F2 in I1, X1.
+  pose proof (T_lt _ _ _ _ _ _ _ _ _ _ _ _ H3) as HT.
+  split; [|split; [exact X1|split; [exact Nx1|split; [exact Ln1|split; [exact Xe|exact Hk]]]]].
+  constructor; auto.
+  apply UI_newscope.
+  - apply fresh_er. apply (sv_fresh _ (st_sinv _ _ _ _ _ (i_st _ _ _ _ _ _ _ _ _ HI))).
+  - lia.
+  - intros key v [].
+  - eapply UI_ext; [exact Xe| |exact HU]. eapply Inv3_def_lt; eauto.
+Qed.
+
+Lemma cleave_u3 : forall exp l L' acc accs ex s e tr Lf Mdyn Mb cK Cf,
+  Inv3 exp l L' acc accs (cs_id cK :: ex) s e tr Lf Mdyn Mb -> CX exp (cs_id cK :: ex) (er s) (cK :: Cf) ->
+  (forall x, In x (cs_T cK) -> In x (cs_acc cK)) ->
+  Inv3 exp l L' acc accs ex s e tr Lf Mdyn Mb /\ CX exp ex (er s) Cf.
+Proof.
+  intros exp l L' acc accs ex s e tr Lf Mdyn Mb cK Cf H3 HX0 Hall. pose proof H3 as [HI HL HU HEU Hfin Hdyn Hown].
+  destruct (cleave exp l L' acc accs ex (er s) e tr cK Cf HI HX0 Hall) as [I1 X1].
+  split. constructor; auto. exact X1.
+Qed.
+
+Lemma comp_scope_not_T : forall exp l L' acc accs ex s e tr Lf Mdyn Mb c0 C0,
+  Inv3 exp l L' acc accs ex s e tr Lf Mdyn Mb -> CX exp ex (er s) (c0 :: C0) -> cs_id c0 <> T.
+Proof.
+  intros exp l L' acc accs ex s e tr Lf Mdyn Mb c0 C0 H3 HX0 E. destruct H3 as [HI HL _ _ _ _ _].
+  apply (ex_off _ _ (i_ex _ _ _ _ _ _ _ _ _ HI) (cs_id c0) (cx_in _ _ _ _ HX0 c0 (or_introl eq_refl))).
+  rewrite E, HL, stack_of_snoc. apply in_app_iff. left. apply in_app_iff. right. left. reflexivity.
+Qed.
+
+(* expressions inside a comprehension *)
+Definition PCU (x : expr) : Prop := c3_expr x = true ->
+  forall exp l L' acc accs ex s e tr Lf Mdyn Mb Cf C ks,
+  Inv3 exp l L' acc accs ex s e tr Lf Mdyn Mb -> CX exp ex (er s) Cf -> CE C ks -> Shape Cf C -> Cf <> [] -> Forall AllOther ks ->
+  (C = Cf \/ s1_expr x = true) ->
+  CPost3 exp l L' acc accs ex s e tr Lf Mdyn Mb (vexpr true x (stack_of (l :: L') ++ cids Cf) s) (sem_expr (lineno s) (ks ++ e) x) Cf.
+
+Lemma cexprs_u : forall es, Forall PCU es -> forallb c3_expr es = true ->
+  forall exp l L' acc accs ex s e tr Lf Mdyn Mb Cf C ks,
+  Inv3 exp l L' acc accs ex s e tr Lf Mdyn Mb -> CX exp ex (er s) Cf -> CE C ks -> Shape Cf C -> Cf <> [] -> Forall AllOther ks ->
+  (C = Cf \/ forallb s1_expr es = true) ->
+  CPost3 exp l L' acc accs ex s e tr Lf Mdyn Mb (vexpr_list true es (stack_of (l :: L') ++ cids Cf) s) (sem_exprs (lineno s) (ks ++ e) es) Cf.
+Proof.
+  intros es HF. induction HF as [|x es Hx HF IH]; intros Hs exp l L' acc accs ex s e tr Lf Mdyn Mb Cf C ks HI HX HCE Hsh Hne HA H1.
+  - apply CPost3_refl; auto.
+  - cbn in Hs. apply andb_true_iff in Hs as [Ha Hb].
+    assert (H1x : C = Cf \/ s1_expr x = true).
+    { destruct H1 as [H1|H1]; auto. cbn in H1. apply andb_true_iff in H1 as [A _]. auto. }
+    assert (H1r : C = Cf \/ forallb s1_expr es = true).
+    { destruct H1 as [H1|H1]; auto. cbn in H1. apply andb_true_iff in H1 as [_ B]. auto. }
+    unfold vexpr_list, sem_exprs. cbn [fold_left flat_map].
+    pose proof (Hx Ha _ _ _ _ _ _ _ _ _ _ _ _ _ _ _ HI HX HCE Hsh Hne HA H1x) as P1.
+    assert (Eln : lineno (vexpr true x (stack_of (l :: L') ++ cids Cf) s) = lineno s).
+    { destruct P1 as (? & _ & _ & _ & E & _). exact E. }
+    eapply CPost3_seq. exact P1. intros exp1 I1 X1.
+    pose proof (IH Hb _ _ _ _ _ _ _ _ _ _ _ _ _ _ _ I1 X1 HCE Hsh Hne HA H1r) as P2. rewrite Eln in P2. exact P2.
+Qed.
+
+Definition PGU (g : gen) : Prop := forall first, c3_gen first g = true ->
+  forall exp l L' acc accs ex s e tr Lf Mdyn Mb c0 C0 k ks0,
+  Inv3 exp l L' acc accs ex s e tr Lf Mdyn Mb -> CX exp ex (er s) (c0 :: C0) -> CE (c0 :: C0) (k :: ks0) -> Forall AllOther (k :: ks0) ->
+  (first = true -> cs_acc c0 = []) -> incl (gen_tnames g) (cs_T c0) ->
+  let c0' := mkCS (cs_id c0) (cs_T c0) (cs_acc c0 ++ gen_tnames g) in
+  CPost3 exp l L' acc accs ex s e tr Lf Mdyn Mb (vgen true g (stack_of (l :: L') ++ cids (c0 :: C0)) s)
+         (snd (sem_gen (lineno s) (ks0 ++ e) k first g)) (c0' :: C0) /\
+  CE (c0' :: C0) (fst (sem_gen (lineno s) (ks0 ++ e) k first g) :: ks0) /\
+  Forall AllOther (fst (sem_gen (lineno s) (ks0 ++ e) k first g) :: ks0).
+
+Lemma gen_case_u : forall iter tgt ifs, PCU iter -> Forall PCU ifs -> PGU (Gen iter tgt ifs).
+Proof.
+  intros iter tgt ifs Hiter Hifs first Hs exp l L' acc accs ex s e tr Lf Mdyn Mb c0 C0 k ks0 HI HX HCE HA Hfirst Hin. cbv zeta.
+  cbn [c3_gen] in Hs. rewrite c3go_eq in Hs. apply andb_true_iff in Hs as [Hs Hcifs]. apply andb_true_iff in Hs as [Hciter Htgt].
+  cbn [gen_tnames] in *. rewrite vgen_eq_t, sem_gen_eq. cbv zeta.
+  rewrite exec_target_s1 by exact Htgt.
+  inversion HCE as [|? ? ? ? Hk0 HCE0]; subst. inversion HA as [|? ? Ak HA0]; subst.
+  set (stkx := stack_of (l :: L') ++ cids (c0 :: C0)) in *.
+  assert (P1 : CPost3 exp l L' acc accs ex s e tr Lf Mdyn Mb (vexpr true iter stkx s)
+                      (sem_expr (lineno s) (if first then ks0 ++ e else k :: ks0 ++ e) iter) (c0 :: C0)).
+  { destruct first.
+    - apply (Hiter (s1_c3 _ Hciter) _ _ _ _ _ _ _ _ _ _ _ _ (c0 :: C0) C0 ks0 HI HX HCE0); auto.
+      + right. exists c0. split. reflexivity. apply Hfirst. reflexivity.
+      + discriminate.
+    - apply (Hiter Hciter _ _ _ _ _ _ _ _ _ _ _ _ (c0 :: C0) (c0 :: C0) (k :: ks0) HI HX HCE); auto.
+      + left. reflexivity.
+      + discriminate. }
+  destruct P1 as (exp1 & X1 & I1 & C1 & Ln1 & N1).
+  set (s1 := vexpr true iter stkx s) in *.
+  rewrite vtarget_u1 by exact Htgt.
+  destruct (cnames_u3 (target_names tgt) _ _ _ _ _ _ _ _ _ _ _ _ c0 C0 I1 C1 (target_names_not_star tgt Htgt) Hin) as (I2 & C2 & Ln2 & N2).
+  cbv zeta in I2, C2, Ln2, N2. fold stkx in I2, C2, Ln2, N2.
+  set (s2 := fold_left (fun s n => store true s stkx [n] Plain) (target_names tgt) s1) in *.
+  set (c0' := mkCS (cs_id c0) (cs_T c0) (cs_acc c0 ++ target_names tgt)) in *.
+  set (k1 := bind_all (others (target_names tgt)) k).
+  assert (HCE1 : CE (c0' :: C0) (k1 :: ks0)).
+  { constructor; [|exact HCE0]. destruct Hk0 as (A & B & D). destruct (bind_all_static (others (target_names tgt)) k) as [E1 E2].
+    split. unfold k1. rewrite E1. exact A. split. intro x. unfold k1. rewrite E2. apply B.
+    apply names_eq_bind_all. exact D. }
+  assert (HA1 : Forall AllOther (k1 :: ks0)) by (constructor; [apply AllOther_bind_all_others; exact Ak|exact HA0]).
+  cbn [fst snd].
+  split; [|split; [exact HCE1|exact HA1]].
+  assert (P3 : CPost3 exp1 l L' acc accs ex s2 e (tr ++ sem_expr (lineno s) (if first then ks0 ++ e else k :: ks0 ++ e) iter) Lf Mdyn Mb
+                      (vexpr_list true ifs stkx s2) (sem_exprs (lineno s2) ((k1 :: ks0) ++ e) ifs) (c0' :: C0)).
+  { change stkx with (stack_of (l :: L') ++ cids (c0' :: C0)).
+    apply (cexprs_u ifs Hifs Hcifs _ _ _ _ _ _ _ _ _ _ _ _ (c0' :: C0) (c0' :: C0) (k1 :: ks0) I2 C2 HCE1); auto.
+    left; reflexivity. discriminate. }
+  destruct P3 as (exp3 & X3 & I3 & C3 & Ln3 & N3).
+  exists exp3. split. { eapply ext_trans; [exact N1|exact X1|]. intros i Hi. apply X3. lia. }
+  assert (Eln2 : lineno s2 = lineno s) by congruence. rewrite Eln2 in I3.
+  split. { cbn [app]. rewrite <- app_assoc in I3. exact I3. }
+  split. exact C3. split. congruence. lia.
+Qed.
+
+Lemma gens_fold_u : forall gens, Forall PGU gens -> forall first, cgens gens first = true ->
+  forall exp l L' acc accs ex s e tr Lf Mdyn Mb c0 C0 k ks0,
+  Inv3 exp l L' acc accs ex s e tr Lf Mdyn Mb -> CX exp ex (er s) (c0 :: C0) -> CE (c0 :: C0) (k :: ks0) -> Forall AllOther (k :: ks0) ->
+  (first = true -> cs_acc c0 = []) -> incl (flat_map gen_tnames gens) (cs_T c0) ->
+  let c0' := mkCS (cs_id c0) (cs_T c0) (cs_acc c0 ++ flat_map gen_tnames gens) in
+  CPost3 exp l L' acc accs ex s e tr Lf Mdyn Mb (vgens true gens (stack_of (l :: L') ++ cids (c0 :: C0)) s)
+         (snd (sem_gens (lineno s) (ks0 ++ e) gens first k)) (c0' :: C0) /\
+  CE (c0' :: C0) (fst (sem_gens (lineno s) (ks0 ++ e) gens first k) :: ks0) /\
+  Forall AllOther (fst (sem_gens (lineno s) (ks0 ++ e) gens first k) :: ks0).
+Proof.
+  intros gens HF. induction HF as [|g gens Hg HF IH]; intros first Hs exp l L' acc accs ex s e tr Lf Mdyn Mb c0 C0 k ks0 HI HX HCE HA Hfirst Hin; cbv zeta.
+  - cbn [flat_map vgens fold_left sem_gens fst snd]. rewrite app_nil_r. destruct c0 as [i T0 a0]. cbn [cs_id cs_T cs_acc].
+    split. apply CPost3_refl; auto. split. exact HCE. exact HA.
+  - cbn [cgens] in Hs. apply andb_true_iff in Hs as [H1 H2]. cbn [flat_map] in Hin |- *.
+    destruct (Hg first H1 _ _ _ _ _ _ _ _ _ _ _ _ c0 C0 k ks0 HI HX HCE HA Hfirst) as (P1 & HCE1 & HA1).
+    { intros y Hy. apply Hin. apply in_app_iff. auto. }
+    cbv zeta in P1, HCE1, HA1.
+    unfold vgens. cbn [fold_left sem_gens].
+    destruct (sem_gen (lineno s) (ks0 ++ e) k first g) as [k1 ra] eqn:Eg. cbn [fst snd] in P1, HCE1, HA1.
+    set (c1 := mkCS (cs_id c0) (cs_T c0) (cs_acc c0 ++ gen_tnames g)) in *.
+    set (s1 := vgen true g (stack_of (l :: L') ++ cids (c0 :: C0)) s) in *.
+    assert (Eln : lineno s1 = lineno s). { destruct P1 as (? & _ & _ & _ & E & _). exact E. }
+    destruct (sem_gens (lineno s) (ks0 ++ e) gens false k1) as [k2 rb] eqn:Egs. cbn [fst snd].
+    set (cF := mkCS (cs_id c0) (cs_T c0) (cs_acc c0 ++ gen_tnames g ++ flat_map gen_tnames gens)).
+    assert (G : forall exp1, Inv3 exp1 l L' acc accs ex s1 e (tr ++ ra) Lf Mdyn Mb -> CX exp1 ex (er s1) (c1 :: C0) ->
+                CPost3 exp1 l L' acc accs ex s1 e (tr ++ ra) Lf Mdyn Mb
+                       (fold_left (fun s0 g0 => vgen true g0 (stack_of (l :: L') ++ cids (c0 :: C0)) s0) gens s1) rb (cF :: C0) /\
+                CE (cF :: C0) (k2 :: ks0) /\ Forall AllOther (k2 :: ks0)).
+    { intros exp1 I1 X1.
+      destruct (IH false H2 _ _ _ _ _ _ _ _ _ _ _ _ c1 C0 k1 ks0 I1 X1 HCE1 HA1) as (P2 & HCE2 & HA2).
+      { discriminate. } { intros y Hy. apply Hin. apply in_app_iff. auto. }
+      cbv zeta in P2, HCE2, HA2. rewrite Eln, Egs in P2, HCE2, HA2. cbn [fst snd cs_id cs_T cs_acc c1] in P2, HCE2, HA2.
+      rewrite <- app_assoc in P2, HCE2. split. exact P2. split. exact HCE2. exact HA2. }
+    split; [|destruct P1 as (exp1 & _ & I1 & X1 & _); apply (G exp1 I1 X1)].
+    eapply CPost3_seq. exact P1. intros exp1 I1 X1. apply (G exp1 I1 X1).
+Qed.
+
+Lemma comp_case_u : forall gens elts, Forall PGU gens -> Forall PCU elts -> c3_expr (EComp gens elts) = true ->
+  forall exp l L' acc accs ex s e tr Lf Mdyn Mb Cf ks,
+  Inv3 exp l L' acc accs ex s e tr Lf Mdyn Mb -> CX exp ex (er s) Cf -> CE Cf ks -> Forall AllOther ks ->
+  CPost3 exp l L' acc accs ex s e tr Lf Mdyn Mb (vexpr true (EComp gens elts) (stack_of (l :: L') ++ cids Cf) s)
+         (sem_expr (lineno s) (ks ++ e) (EComp gens elts)) Cf.
+Proof.
+  intros gens elts HG HE Hs exp l L' acc accs ex s e tr Lf Mdyn Mb Cf ks HI HX HCE HA.
+  cbn [c3_expr] in Hs. rewrite cgens_eq, c3go_eq in Hs. apply andb_true_iff in Hs as [Hg He].
+  rewrite vexpr_comp_eq_t, sem_comp_eq.
+  rewrite push_t by (eapply Inv3_sinv; eauto). cbv beta iota zeta.
+  set (K := next_id s). set (s1 := snd (new_scope s KNormal [])). set (T0 := gen_targets gens).
+  destruct (center_u3 exp l L' acc accs ex s e tr Lf Mdyn Mb Cf T0 HI HX) as (I1 & X1 & Nx1 & Ln1 & Xe & Hk).
+  cbv zeta in I1, X1, Nx1, Ln1, Xe, Hk. fold K s1 in I1, X1, Nx1, Ln1, Xe, Hk.
+  set (cK := mkCS K T0 []) in *.
+  assert (Estk : (stack_of (l :: L') ++ cids Cf) ++ [K] = stack_of (l :: L') ++ cids (cK :: Cf)).
+  { rewrite cids_cons, app_assoc. reflexivity. }
+  rewrite Estk.
+  assert (HCE1 : CE (cK :: Cf) (comp_frame T0 :: ks)) by (constructor; auto).
+  assert (HA1 : Forall AllOther (comp_frame T0 :: ks)) by (constructor; [apply AllOther_comp_frame|exact HA]).
+  destruct (gens_fold_u gens HG true Hg _ _ _ _ _ _ _ _ _ _ _ _ cK Cf (comp_frame T0) ks I1 X1 HCE1 HA1) as (P2 & HCE2 & HA2).
+  { reflexivity. } { rewrite <- gen_targets_eq. apply incl_refl. }
+  cbv zeta in P2, HCE2, HA2. rewrite Ln1 in P2, HCE2, HA2.
+  destruct (sem_gens (lineno s) (ks ++ e) gens true (comp_frame T0)) as [k r1] eqn:Egs. cbn [fst snd] in P2, HCE2, HA2.
+  cbn [cs_id cs_T cs_acc cK app] in P2, HCE2. rewrite <- gen_targets_eq in P2, HCE2. fold T0 in P2, HCE2.
+  set (cK' := mkCS K T0 T0) in *.
+  destruct P2 as (exp2 & X2 & I2 & C2 & Ln2 & N2).
+  set (s2 := vgens true gens (stack_of (l :: L') ++ cids (cK :: Cf)) s1) in *.
+  assert (P3 : CPost3 exp2 l L' acc accs (K :: ex) s2 e (tr ++ r1) Lf Mdyn Mb
+                      (vexpr_list true elts (stack_of (l :: L') ++ cids (cK' :: Cf)) s2) (sem_exprs (lineno s2) ((k :: ks) ++ e) elts) (cK' :: Cf)).
+  { apply (cexprs_u elts HE He _ _ _ _ _ _ _ _ _ _ _ _ (cK' :: Cf) (cK' :: Cf) (k :: ks) I2 C2 HCE2); auto. left; reflexivity. discriminate. }
+  change (cids (cK' :: Cf)) with (cids (cK :: Cf)) in P3.
+  destruct P3 as (exp3 & X3 & I3 & C3 & Ln3 & N3).
+  set (s3 := vexpr_list true elts (stack_of (l :: L') ++ cids (cK :: Cf)) s2) in *.
+  assert (Etop : top (stack_of (l :: L') ++ cids (cK :: Cf)) = K) by (rewrite cids_cons, app_assoc; apply top_snoc).
+  rewrite Etop.
+  assert (HKT : K <> T). { change K with (cs_id cK'). eapply comp_scope_not_T; eauto. }
+  rewrite (pop_plain_t T BS I0 exp3 s3 Mdyn _ K (v_u _ _ _ _ _ _ _ _ _ _ _ _ I3) HKT).
+  destruct (cleave_u3 exp3 l L' acc accs ex s3 e _ Lf Mdyn Mb cK' Cf I3 C3) as [I4 C4]. { auto. }
+  exists exp3. split.
+  { intros i Hi. fold K in Hi. rewrite (X3 i), (X2 i), (Xe i) by lia. reflexivity. }
+  assert (Eln2 : lineno s2 = lineno s) by congruence. rewrite Eln2 in I4.
+  split. { rewrite <- app_assoc in I4. exact I4. }
+  split. exact C4. split. congruence. lia.
+Qed.
+
+Lemma cexpr_u : forall x, PCU x.
+Proof.
+  intro x. induction x using expr_ind' with (Q := PGU); unfold PCU.
+  - (* ELoad *) intros Hs exp l L' acc accs ex s e tr Lf Mdyn Mb Cf C ks HI HX HCE Hsh Hne HA H1.
+    cbn [vexpr sem_expr]. apply (cload_u3 exp l L' acc accs ex s e tr Lf Mdyn Mb Cf C ks n a); auto.
+  - (* EOp *) intros Hs exp l L' acc accs ex s e tr Lf Mdyn Mb Cf C ks HI HX HCE Hsh Hne HA H1.
+    cbn [vexpr sem_expr c3_expr s1_expr] in *. rewrite vgo_eq_t, sgo_eq. rewrite c3go_eq in Hs. rewrite s1go_eq in H1.
+    apply (cexprs_u es H Hs _ _ _ _ _ _ _ _ _ _ _ _ Cf C ks); auto.
+  - (* EAttr *) intros Hs exp l L' acc accs ex s e tr Lf Mdyn Mb Cf C ks HI HX HCE Hsh Hne HA H1.
+    cbn [vexpr sem_expr c3_expr s1_expr] in *. apply (IHx Hs _ _ _ _ _ _ _ _ _ _ _ _ Cf C ks); auto.
+  - (* ELambda *) intros Hs. cbn in Hs. discriminate.
+  - (* EComp *) intros Hs exp l L' acc accs ex s e tr Lf Mdyn Mb Cf C ks HI HX HCE Hsh Hne HA H1.
+    assert (EC0 : C = Cf). { destruct H1 as [H1|H1]; auto. cbn in H1. discriminate. } subst C.
+    apply comp_case_u; auto.
+  - (* a generator *) apply gen_case_u; auto.
+Qed.
+
+Lemma all_PCU : forall es, Forall PCU es.
+Proof. intro es. apply Forall_forall. intros x _. apply cexpr_u. Qed.
+Lemma all_PGU : forall gs, Forall PGU gs.
+Proof. intro gs. apply Forall_forall. intros [iter tgt ifs] _. apply gen_case_u. apply cexpr_u. apply all_PCU. Qed.
+
+(* a comprehension met outside any comprehension *)
+Lemma comp_top_u : forall gens elts, c3_expr (EComp gens elts) = true ->
+  forall exp l L' acc accs ex s e tr Lf Mdyn Mb, Inv3 exp l L' acc accs ex s e tr Lf Mdyn Mb ->
+  Post3 exp l L' acc accs ex s e tr Lf Mdyn Mb (vexpr true (EComp gens elts) (stack_of (l :: L')) s) (sem_expr (lineno s) e (EComp gens elts)).
+Proof.
+  intros gens elts Hs exp l L' acc accs ex s e tr Lf Mdyn Mb HI.
+  assert (HX : CX exp ex (er s) []). { constructor. constructor. intros c []. constructor. intros c []. }
+  destruct (comp_case_u gens elts (all_PGU gens) (all_PCU elts) Hs exp l L' acc accs ex s e tr Lf Mdyn Mb [] [] HI HX (Forall2_nil _) (Forall_nil _))
+    as (exp' & X & I' & _ & Ln & Nx).
+  cbn [cids map rev app] in *. rewrite app_nil_r in *.
+  exists exp'. auto.
+Qed.
+
 End U2.
 
 (* ---------- the initial state ---------- *)
